@@ -31,12 +31,19 @@ let mgmt_line (f : M.frame) =
     (out bss_str (M.parse_reassoc_resp f)) (out sta_str (M.parse_probe_req f)) (out sta_str (M.parse_assoc_req f))
     (out sta_str (M.parse_reassoc_req f)) (out reason_str (M.parse_deauth f)) (out reason_str (M.parse_disassoc f))
 
+let outs f (o : 'a M.outcome) = match o with M.Ok v -> f v | M.Err _ -> "err"
+let spec_line (f : M.frame) =
+  sp "mgmt beacon=%s probe_resp=%s assoc_resp=%s reassoc_resp=%s probe_req=%s assoc_req=%s reassoc_req=%s deauth=%s disassoc=%s"
+    (outs bss_str (M.s_parse_beacon f)) (outs bss_str (M.s_parse_probe_resp f)) (outs bss_str (M.s_parse_assoc_resp f))
+    (outs bss_str (M.s_parse_reassoc_resp f)) (outs sta_str (M.s_parse_probe_req f)) (outs sta_str (M.s_parse_assoc_req f))
+    (outs sta_str (M.s_parse_reassoc_req f)) (outs reason_str (M.s_parse_reason f (z_of_int 12))) (outs reason_str (M.s_parse_reason f (z_of_int 10)))
+
 let op_mgmt t =
   let rt = t.(1) = "1" in
   let a = ints_of_hex t.(2) in
   match M.get_wifi_frame (rd_strict_arr a) (z_of_int (Array.length a)) rt with
-  | M.Done (M.Err _) -> "mgmt cls=err"
-  | M.Done (M.Ok f) -> mgmt_line f
+  | M.Done (M.Err _) -> "mgmt cls=err ## mgmt cls=err"
+  | M.Done (M.Ok f) -> mgmt_line f ^ " ## " ^ spec_line f
   | _ -> "mgmt cls=FAULT"
 
 let ops : (S.t * (S.t array -> S.t)) list = [ "mgmt", op_mgmt ]
